@@ -247,7 +247,11 @@ def equivalence(ck, prog, pr, seed, fact):
         st.trace = st.trace + (Event('write_result', (), args[1]),)
         return UNIT
     exc.env.append((r'<impl \*mut clockbound_now_result>::write$', h_write))
-    st = State(); st.mem[(0, 'ctx')] = Struct([Opaque('err0'), Opaque('reader')]); st.mem[(0, 'res')] = Opaque('res')
+    # ctx.err is whatever an earlier call left there: arbitrary prior content (it starts zeroed, a failing call overwrites it)
+    fce = prog.struct_fields.get('clockbound_err', [])
+    prior_e = {'kind': Enum(z3.Int('ctxerr_prior_kind'), {}), 'errno': z3.Int('ctxerr_prior_errno')}
+    err0 = Struct([prior_e.get(n, Opaque('ctxerr_prior_' + n)) for n in fce]) if fce else Opaque('err0')
+    st = State(); st.mem[(0, 'ctx')] = Struct([err0, Opaque('reader')]); st.mem[(0, 'res')] = Opaque('res')
     outs_c = [o for o in exc.run(f_now_c, [Ref(0, 'ctx'), Opaque('resptr')], st) if o.kind == 'return']
     # Rust
     f_now_r = prog.find1('now', self_ty='ClockBoundClient', crate='clock_bound_client')
@@ -331,7 +335,9 @@ def open_equivalence(ck, prog, pr, oc, shm_err, fields_c, fields_r):
         f_open_c = prog.find1('clockbound_open', crate='clockbound')
         f_open_r = prog.find1('new_with_path', self_ty='ClockBoundClient', crate='clock_bound_client')
         exc = Exec(prog, env=mk_env(), opaque_calls=occ); exr = Exec(prog, env=mk_env(), opaque_calls=occ)
-        st = State(); st.mem[(0, 'err')] = Opaque('err')
+        # the caller's clockbound_err may hold anything (a previous error, stack garbage): arbitrary prior content
+        prior = {'kind': Enum(z3.Int('err_prior_kind'), {}), 'errno': z3.Int('err_prior_errno'), 'detail': Opaque('err_prior_detail')}
+        st = State(); st.mem[(0, 'err')] = Struct([prior.get(n, Opaque('err_prior_' + n)) for n in fields_c]) if fields_c else Opaque('err')
         outs_c = [o for o in exc.run(f_open_c, [Opaque('path'), Ref(0, 'err')], st) if o.kind == 'return']
         outs_r = [o for o in exr.run(f_open_r, [Opaque('path')], State()) if o.kind == 'return']
     except EngineError as e:
@@ -354,12 +360,15 @@ def open_equivalence(ck, prog, pr, oc, shm_err, fields_c, fields_r):
                 pr.prove('open: the C library and the Rust client agree on success/failure for the same ShmReader::new result', both, z3.BoolVal(False), need_reach=False)
             elif not okc:
                 we = [e for e in a.state.trace if e.kind == 'write_err']
-                if not we:
-                    continue        # err pointer null: nothing to compare
-                errc = we[0].ret; errr = b.value.p['Err'].f[0]
+                # what the caller finds in its clockbound_err afterwards (whole-struct write, or fields updated in place)
+                errc = we[-1].ret if we else a.state.mem.get((0, 'err'))
+                if not isinstance(errc, Struct):
+                    continue
+                errr = b.value.p['Err'].f[0]
                 kc = errc.f[fields_c.index('kind')].disc(); kr = errr.f[fields_r.index('kind')].disc()
                 ec = errc.f[fields_c.index('errno')]; er = errr.f[fields_r.index('errno')]; er = er.f[0] if isinstance(er, Struct) else er
-                pr.prove('open: on failure both libraries report the same error kind and errno', both, z3.And(kc == kr + 1, ec == er))
+                pr.prove_cegar('open: on failure both libraries report the same error kind and errno (whatever the caller\'s clockbound_err held before)', both, z3.And(kc == kr + 1, ec == er),
+                               lambda m: None, lambda m: [])
     ck.cov['open_wrappers'] = {'paths_c': len(outs_c), 'paths_rust': len(outs_r), 'extra_reader_operations': bad_seq[:2]}
     return bad_seq
 
@@ -399,6 +408,13 @@ def native_compare(ck, spec):
         if f.get('rust') != f.get('c'):
             bad.append('scenario "%s": Rust client -> %s, C library -> %s' % (s, f.get('rust'), f.get('c')))
     # both libraries opened first, the segment changed afterwards (update in flight / wiped by a restarting daemon), then now()
+    # a caller that reuses one clockbound_err (it holds SYSCALL / ENOENT from an earlier attempt) and opens a file that is there but not valid
+    for s3 in ('dirty:short', 'dirty:zerogen', 'dirty:smallseg', 'dirty:badmagic'):
+        o = rp.ask('abi ' + s3)
+        res['abi ' + s3] = o
+        f = dict(x.split('=', 1) for x in o.split()[1:] if '=' in x)
+        if f.get('rust') != f.get('c'):
+            bad.append('scenario "%s" (the caller\'s clockbound_err held errno 2 from a previous call): Rust client -> %s, C library -> %s' % (s3, f.get('rust'), f.get('c')))
     scen2 = ['none', 'oddgen', 'zerover']
     for s2 in scen2:
         o = rp.ask('abi2 ' + s2)
